@@ -29,17 +29,7 @@ STATEMENTS = {
 # Findings of this check on the pinned tree, reported to the maintainer of known_findings.json; until they are
 # entered there they are registered here so that the unchanged tree yields KNOWN-FINDING lines, not alarms.
 # Part A entries are generated from the exception lists of C18.lean (exact keys, one per entry).
-LOCAL_KNOWN_B = [
-    dict(key="ffi*:oracle:scopy-returns-loan-error-code",
-         what="iox2_publisher_send_copy / iox2_publisher_send_slice_copy return the code of iox2_loan_error_e when the loan fails "
-              "(publisher.rs send_copy/send_slice_copy: `Err(e) => return e.into_c_int()` with e: LoanError) although they are documented to return "
-              "iox2_send_error_e: ExceedsMaxLoans arrives as 2 = CONNECTION_CORRUPTED instead of LOAN_ERROR_EXCEEDS_MAX_LOANS (4), "
-              "ExceedsMaxLoanSize as 3 = LOAN_ERROR_OUT_OF_MEMORY instead of 5; the Rust API reports SendError::LoanError(..)"),
-    dict(key="ffi*:oracle:user-header-not-initialised-by-c-loan",
-         what="samples loaned through the C API carry an uninitialised user header (Publisher::loan_chunk writes UserHeader::default(), which is a no-op "
-              "for the binding's CustomHeaderMarker): with iox2_publisher_send_copy, which gives no access to the header, the receiver reads the user "
-              "header of the chunk's previous sample, where the Rust API delivers the default header"),
-]
+LOCAL_KNOWN_B = []   # registered in /verif/known_findings.json (property C18, keys ffi*:oracle:…)
 
 
 def translate(ctx):
@@ -124,8 +114,8 @@ def recheck_table(ctx, table):
         names = [":".join(d["exception"][1:]) or d["exception"][0] for d in ds]
         key = f"table:{stmt}:{enum}"
         what = f"{stmt} is false for {enum} ({where}): {', '.join(names[:8])}{' …' if len(names) > 8 else ''} — refuted in Lean ({ds[0]['theorem'].replace('_partial', '_refuted')}), excluded by name in {ds[0]['theorem']}"
-        if (key, what) not in ctx.known_hits:
-            ctx.known_hits.append((key, what))
+        # registered in /verif/known_findings.json under exactly this key; an unregistered one is a violation
+        ctx.violation(key, what, dict(engine="table-recheck", statement=stmt, enum=enum, entries=[d["entry"] for d in ds]))
     return off
 
 
@@ -291,11 +281,25 @@ def diff_ffi(ctx, gen_args, label, rmap, do_shrink=True):
         obj = dict(engine="seqdiff-ffi", component="ffi", ops=ops, impl=impl)
         ctx.violation(f"{label}:{key}", what, obj)
         # replays of registered findings are kept as well
-        if any(core.fnmatch.fnmatchcase(f"{label}:{key}", kf["key"]) for kf in LOCAL_KNOWN_B):
+        if any(kf.get("property") == ctx.prop and core.fnmatch.fnmatchcase(f"{label}:{key}", kf["key"]) for kf in ctx.known):
             path = os.path.join(ctx.replaydir, f"{ctx.prop}-{core.safe(label + ':' + key)}.json")
             with open(path, "w") as f:
                 json.dump(dict(obj, property=ctx.prop, key=f"{label}:{key}", what=what, seed=ctx.seed, tier=ctx.tier), f, indent=1)
     return len(bad)
+
+
+def leak_oracle_selftest(ctx, rmap):
+    """the leak oracle must fire when a handle is really not released (`leakpub` forgets a publisher in every world)"""
+    rc, lines = replay_ops(["new ps fixed 2 0 2 2 2 0 1 1", "leakpub", "fin", "new ev 1 1 3", "fin"])
+    ks = keys_of(lines, rmap)
+    fired = [l for l in lines if l.startswith("fin") and "ORACLE[files left" in l]
+    clean = [l for l in lines if l.startswith("fin") and l.endswith("left=0")]
+    ctx.count("ffi.leak-oracle-selftest")
+    if rc != 0 or len(fired) != 1 or len(clean) != 1 or "oracle:leak" not in ks:
+        ctx.violation("ffi:leak-oracle-selftest", "the leak oracle of the ffi harness did not report a forgotten publisher (or reported one in a clean case)",
+                      dict(engine="seqdiff-ffi", component="ffi", ops=["new ps fixed 2 0 2 2 2 0 1 1", "leakpub", "fin", "new ev 1 1 3", "fin"], impl=lines), nfi=True)
+    else:
+        ctx.log("[ffi] leak oracle self-test: a forgotten publisher is reported, a clean case is not")
 
 
 def run(ctx):
@@ -319,12 +323,13 @@ def run(ctx):
     rmap, _ = load_maps(table)
     quick = ctx.tier == "quick"
     diff_ffi(ctx, ["gen", "names"], "ffi.names", rmap, do_shrink=False)
+    leak_oracle_selftest(ctx, rmap)
     # a case costs 6 node and 4 service creations (4 worlds): ~10 ms on an idle machine
-    diff_ffi(ctx, ["gen", "--exhaustive", 1 if quick else 3, "ps"], "ffi.ps.exhaustive", rmap)
-    diff_ffi(ctx, ["gen", "--exhaustive", 2 if quick else 4, "ev"], "ffi.ev.exhaustive", rmap)
-    diff_ffi(ctx, ["gen", "--seed", ctx.seed, "--cases", 120 if quick else 6000, "--len", 40 if quick else 70, "fixed"], "ffi.ps.fixed", rmap)
-    diff_ffi(ctx, ["gen", "--seed", ctx.seed + 1, "--cases", 120 if quick else 6000, "--len", 40 if quick else 70, "slice"], "ffi.ps.slice", rmap)
-    diff_ffi(ctx, ["gen", "--seed", ctx.seed + 2, "--cases", 80 if quick else 6000, "--len", 40 if quick else 70, "ev"], "ffi.ev", rmap)
+    diff_ffi(ctx, ["gen", "--exhaustive", 1 if quick else 2, "ps"], "ffi.ps.exhaustive", rmap)
+    diff_ffi(ctx, ["gen", "--exhaustive", 2 if quick else 3, "ev"], "ffi.ev.exhaustive", rmap)
+    diff_ffi(ctx, ["gen", "--seed", ctx.seed, "--cases", 200 if quick else 1000, "--len", 40 if quick else 70, "fixed"], "ffi.ps.fixed", rmap)
+    diff_ffi(ctx, ["gen", "--seed", ctx.seed + 1, "--cases", 200 if quick else 1000, "--len", 40 if quick else 70, "slice"], "ffi.ps.slice", rmap)
+    diff_ffi(ctx, ["gen", "--seed", ctx.seed + 2, "--cases", 150 if quick else 1000, "--len", 40 if quick else 70, "ev"], "ffi.ev", rmap)
     return core.finish(
         ctx, level="proof",
         rule="Part A: every `pub enum iox2_*_e` of iceoryx2-ffi/c/src/api/*.rs classified as error enum (name, IntoCInt target, IOX2_OK+1 convention), all variants, all "
@@ -333,7 +338,7 @@ def run(ctx):
              "config prefix and root; publish-subscribe with 8 payload types (size 1..128, alignment 1..64) fixed and as slices, 3 user header types, "
              "max publishers/subscribers 1..3, buffer 1..4, history, borrow limit, safe overflow on/off; loans within and beyond the limits, send, send_copy, receive, "
              "sample release, has_samples, update_connections, dynamic counts; events with id limits, default and custom ids, try_wait; exhaustive = all sequences of "
-             "1/3 (pub-sub, 8 calls, 16 configurations) and 2/4 (event, 8 calls, 2 configurations) calls after a fixed prefix; `names`: every *_string function with "
+             "1/2 (pub-sub, 8 calls, 16 configurations) and 2/3 (event, 8 calls, 2 configurations) calls after a fixed prefix; `names`: every *_string function with "
              "every code of its enum against the translated table; after every case all handles are dropped and the domain's files are listed (leak oracle). "
              "distinct = distinct output vectors of cases with > 2 ops",
         extra_assumptions=[
